@@ -201,7 +201,15 @@ def monSsLpF (fees : Option PoolFee) (amp : Nat) (decimals before after : List N
     let mx := (listMax na).getD 0
     let mn := (listMin na).getD 0
     if !(mx ≤ 1000 * mn && 1 ≤ amp && amp ≤ 1000000) then none else
-    firstFail [(supplyAfter * SS_K ≤ da + 2 * SS_K && da ≤ supplyAfter * SS_K + 3 * SS_K, "C02-ss-first-mint")]
+    if supplyAfter * SS_K ≤ da + 2 * SS_K && da ≤ supplyAfter * SS_K + 3 * SS_K then none
+    -- the first mint IS the code's D of the deposited balances: where that value is more than two units from the exact root
+    -- (findings F-14 / F-15: the integer Newton iteration ends in a rounding cycle or a shifted fixpoint, observed up to ~20
+    -- units inside the supported range) the first mint misses the bound as a consequence — class: the supply is exactly the
+    -- original algorithm's D AND that D is more than two units off; any other first mint is `C02-ss-first-mint`
+    else if (match calculateDCore amp na na.length with
+              | .ok dm => dm == supplyAfter && decide (absDiff dm (Spec.dFloor ann na) > 2)
+              | .error _ => false) then some "C02-ss-dilution-d-inaccurate"
+    else some "C02-ss-first-mint"
   else if nb.any (· == 0) then none else
   let db := Spec.dFloorScaled ann nb SS_K
   -- D1/S1 ≥ D0/S0 up to two units of D on either side
